@@ -343,11 +343,52 @@ def _fast_path_bound(conds, item: str, max_param: str) -> Optional[int]:
     return best
 
 
+def _with_filled_containers(fi):
+    """the function with every local container that is filled, in a loop over (part of) ``self.command_set``, with the elements of
+    that loop (``wire = Dataset()`` ... ``for elem in self.command_set: if ..: wire.add(elem)``) created as
+    ``__filled_from__(self.command_set)``: which elements are transmitted is C08's business, for the fragmentation rules the
+    container *is* the command set"""
+    import copy as _copy
+    from ..srcmodel import FuncInfo
+    node = fi.node
+    filled = {}
+    for lp in ast.walk(node):
+        if not isinstance(lp, ast.For) or 'self.command_set' not in norm(lp.iter):
+            continue
+        tnames = {x.id for x in ast.walk(lp.target) if isinstance(x, ast.Name)}
+        for c_ in ast.walk(lp):
+            if isinstance(c_, ast.Call) and isinstance(c_.func, ast.Attribute) and isinstance(c_.func.value, ast.Name) \
+                    and c_.func.attr in ('add', 'append', 'extend', 'update', '__setitem__') \
+                    and any(isinstance(x, ast.Name) and x.id in tnames for a_ in c_.args for x in ast.walk(a_)):
+                filled[c_.func.value.id] = lp.iter
+            elif isinstance(c_, ast.Assign) and len(c_.targets) == 1 and isinstance(c_.targets[0], ast.Subscript) \
+                    and isinstance(c_.targets[0].value, ast.Name) \
+                    and any(isinstance(x, ast.Name) and x.id in tnames for x in ast.walk(c_.value)):
+                filled[c_.targets[0].value.id] = lp.iter
+    if not filled:
+        return fi
+    new = _copy.deepcopy(node)
+    hit = False
+    for st in ast.walk(new):
+        if isinstance(st, ast.Assign) and len(st.targets) == 1 and isinstance(st.targets[0], ast.Name) and st.targets[0].id in filled \
+                and isinstance(st.value, (ast.Call, ast.List, ast.Dict, ast.Set)) \
+                and not any(isinstance(x, ast.Name) and x.id != 'Dataset' and not isinstance(x.ctx, ast.Store) and x.id not in ('list', 'dict', 'set', 'OrderedDict', 'collections', 'pydicom')
+                            for x in ast.walk(st.value)):
+            st.value = ast.copy_location(ast.Call(func=ast.Name(id='__filled_from__', ctx=ast.Load()),
+                                                  args=[ast.parse('self.command_set', mode='eval').body], keywords=[]), st.value)
+            hit = True
+    if not hit:
+        return fi
+    ast.fix_missing_locations(new)
+    return FuncInfo(module=fi.module, cls=fi.cls, name=fi.name, node=new, kind=fi.kind, parent=fi.parent, nested=fi.nested)
+
+
+
 def fast_path_problems(repo, hier) -> Tuple[List[str], int]:
     """PDUs that DIMSEMessage.encode builds from a whole message, not from a fragment of the fragmenter: the path must bound the
     message by limit - overhead (shared by C06.S5 and C10.X8) -> (problems, number of such yields)"""
     import struct as _st
-    enc = repo.func('dimsemessages', 'DIMSEMessage.encode')
+    enc = _with_filled_containers(repo.func('dimsemessages', 'DIMSEMessage.encode'))
     c = SymClient(repo, enc, event_of=ev_kind, hierarchy=hier, inline=repo.is_helper)
     c.run(empty_state())
     max_param = enc.params[2]
@@ -793,7 +834,7 @@ def run(repo, rep):
               'bytes variant uses width %s, file variant %s' % (widths.get('fragment'), widths.get('fragment_file')))
 
     # ---------------------------------------------------------------- encode (S4, S5)
-    enc = repo.func('dimsemessages', 'DIMSEMessage.encode')
+    enc = _with_filled_containers(repo.func('dimsemessages', 'DIMSEMessage.encode'))
     rep.analysed(enc)
     c = SymClient(repo, enc, event_of=ev_kind, hierarchy=hier, inline=repo.is_helper)
     fin = c.final_states(c.run(empty_state()))
